@@ -128,6 +128,15 @@ Theorem C13_vendor_pids_are_unknown :
     ~ In pid (map r_pid (topic_rtable TI ti_dec)) /\ ~ In pid (map r_pid (dwriter_rtable TI ti_dec))
     /\ ~ In pid (map r_pid (dreader_rtable TI ti_dec)) /\ ~ In pid (map r_pid participant_rtable).
 Proof. exact vendor_pid_unknown. Qed.
+(* so is every pid with the must-understand flag 0x4000 set (the readers compare the full 16-bit
+   id; an unknown must-understand parameter is ignored like any other), except PID_DOMAIN_TAG
+   (0x4014) itself for the participant *)
+Theorem C13_must_understand_pids_are_unknown :
+  forall (TI : Type) (ti_dec : xdec TI) pid, 16384 <= pid <= 32767 ->
+    ~ In pid (map r_pid (topic_rtable TI ti_dec)) /\ ~ In pid (map r_pid (dwriter_rtable TI ti_dec))
+    /\ ~ In pid (map r_pid (dreader_rtable TI ti_dec))
+    /\ (pid <> PID_DOMAIN_TAG -> ~ In pid (map r_pid participant_rtable)).
+Proof. exact must_understand_pid_unknown. Qed.
 
 (* ------------------------------------------------------------------ decoders never panic (for C07) *)
 Theorem C13_decode_total_topic :
@@ -202,6 +211,7 @@ Print Assumptions C13_publication_unknown_pids_ignored.
 Print Assumptions C13_subscription_unknown_pids_ignored.
 Print Assumptions C13_participant_unknown_pids_ignored.
 Print Assumptions C13_vendor_pids_are_unknown.
+Print Assumptions C13_must_understand_pids_are_unknown.
 Print Assumptions C13_decode_total_topic.
 Print Assumptions C13_decode_total_publication.
 Print Assumptions C13_decode_total_subscription.
